@@ -19,6 +19,7 @@ import (
 	"math/big"
 	"os"
 	"runtime"
+	"runtime/pprof"
 	"sort"
 	"strconv"
 	"strings"
@@ -372,7 +373,11 @@ func (s *c14Seq) genTx() (*types.Transaction, string) {
 	if period != state.NonePeriod {
 		wCer = 40
 	}
-	switch s.r.Pick(56, 14, wCer, 10) {
+	wBig := 0
+	if s.sc%3 == 0 { // large payloads only in every third scenario (they are what a leaked replica retains)
+		wBig = 24
+	}
+	switch s.r.Pick(56, 14, wCer, wBig) {
 	case 0: // plain transfer of a contended sender, any nonce / epoch relation
 		from := s.senders[s.r.Intn(len(s.senders))]
 		n, nk := s.pickNonce(from)
@@ -1080,6 +1085,12 @@ func c14RunSeq(rep *verifutil.Report, t *testing.T, sc int, nOps int, progress *
 func c14Release(w *World) {
 	delete(contractsByWorld, w)
 	theIpfs = nil
+	// the push tracker's polling goroutines live forever and reference their pool (and through
+	// it the whole replica); nothing is ever announced in the simulator, so they never look
+	// at the holder again
+	for _, r := range w.Replicas {
+		r.TxPool.PushTracker().SetHolder(nil)
+	}
 }
 
 func TestVerifC14Seq(t *testing.T) {
@@ -1088,7 +1099,20 @@ func TestVerifC14Seq(t *testing.T) {
 	}
 	rep := verifutil.NewReport()
 	defer rep.Write()
-	nScen := verifutil.Scale(6, 120)
+	nScen := envIntC14("VERIF_C14_NSCEN", verifutil.Scale(6, 60))
+	defer func() {
+		if f := os.Getenv("VERIF_C14_HEAP"); f != "" {
+			runtime.GC()
+			if fh, err := os.Create(fmt.Sprintf("%s-%d", f, verifutil.Shard())); err == nil {
+				pprof.WriteHeapProfile(fh)
+				fh.Close()
+			}
+			if fh, err := os.Create(fmt.Sprintf("%s-gor-%d", f, verifutil.Shard())); err == nil {
+				pprof.Lookup("goroutine").WriteTo(fh, 1)
+				fh.Close()
+			}
+		}
+	}()
 	nOps := verifutil.Scale(500, 900)
 	for sc := 0; sc < nScen; sc++ {
 		var progress int64
